@@ -4,3 +4,5 @@ pub mod liang;
 pub mod hpack;
 pub mod dvi_track;
 pub mod ligkern_interp;
+pub mod tex_lexer;
+pub mod tfm_arith;
